@@ -7,7 +7,7 @@ formulas, R3 frame-dependent primitives are fenced off protein atoms.
 import ast
 
 from sa import callgraph
-from sa.astutil import (anorm, call_name, calls_in, dotted, norm, walk_no_nested, last_attr,
+from sa.astutil import (anorm, stores_in, call_name, calls_in, dotted, norm, walk_no_nested, last_attr,
                         names_in, fact_texts, try_fold, enclosing_stmt, ancestors,
                         func_params, enclosing_loops, facts_at)
 from sa.loader import AnalysisError
@@ -130,9 +130,103 @@ def maximal_expr(node):
             return cur
 
 
+def centroid_accumulators(fn):
+    """Locals that add up one coordinate of every element of a list and are
+    used only divided by the length of that list, the quotient standing where
+    that coordinate belongs: {name: (axis, statements that feed it)}.
+
+        h, *r = S            |   s = 0
+        s = h.x              |   for o in S: s += o.x
+        for o in r: s += o.x |
+        ... s / len(S) ...
+
+    The weight of s is 1 + len(r) = len(S) (resp. len(S)) coordinates, so the
+    quotient is a position: the mean.  Both spellings of the accumulation
+    (`s += e`, `s = s + e`) count."""
+    from sa.canon import canon as fcanon
+    can = fcanon(fn)
+    res = {}
+    stores = {}
+    for st, tgt in stores_in(fn):
+        if isinstance(tgt, ast.Name):
+            stores.setdefault(tgt.id, []).append(st)
+    unpacks = [st for st in walk_no_nested(fn) if isinstance(st, ast.Assign)
+               and isinstance(st.targets[0], (ast.Tuple, ast.List)) and len(st.targets[0].elts) == 2
+               and isinstance(st.targets[0].elts[0], ast.Name)
+               and isinstance(st.targets[0].elts[1], ast.Starred)
+               and isinstance(st.targets[0].elts[1].value, ast.Name)]
+    for name, sts in stores.items():
+        if len(sts) != 2:
+            continue
+        init = [st for st in sts if isinstance(st, ast.Assign)
+                and not any(isinstance(n, ast.Name) and n.id == name for n in ast.walk(st.value))]
+        accs = [st for st in sts if st not in init]
+        if len(init) != 1 or len(accs) != 1:
+            continue
+        init, acc = init[0], accs[0]
+        # the added term
+        if isinstance(acc, ast.AugAssign) and isinstance(acc.op, ast.Add):
+            term = acc.value
+        elif isinstance(acc, ast.Assign) and isinstance(acc.value, ast.BinOp) and isinstance(acc.value.op, ast.Add) \
+                and any(isinstance(x, ast.Name) and x.id == name for x in (acc.value.left, acc.value.right)):
+            term = acc.value.right if isinstance(acc.value.left, ast.Name) and acc.value.left.id == name \
+                else acc.value.left
+        else:
+            continue
+        loop = acc._parent
+        if not (isinstance(loop, ast.For) and isinstance(loop.target, ast.Name) and isinstance(loop.iter, ast.Name)
+                and isinstance(term, ast.Attribute) and term.attr in AXES
+                and isinstance(term.value, ast.Name) and term.value.id == loop.target.id
+                and not loop.orelse):
+            continue
+        axis = term.attr
+        blk = getattr(loop._parent, 'body', None)
+        if not isinstance(blk, list) or loop not in blk or init not in blk or blk.index(init) > blk.index(loop):
+            continue
+        whole = None
+        if try_fold(init.value) == 0:
+            whole = loop.iter                      # from nothing, over the whole list
+        elif isinstance(init.value, ast.Attribute) and init.value.attr == axis \
+                and isinstance(init.value.value, ast.Name):
+            for u in unpacks:
+                if u in blk and blk.index(u) < blk.index(init) \
+                        and u.targets[0].elts[0].id == init.value.value.id \
+                        and u.targets[0].elts[1].value.id == loop.iter.id:
+                    whole = u.value                # the first element, then the rest
+        if whole is None:
+            continue
+        # no jump out of the loop, nothing else stores the list or the parts
+        if any(isinstance(n, (ast.Break, ast.Continue, ast.Return)) for n in ast.walk(loop)):
+            continue
+        want = 'len(%s)' % can.text(whole).replace(' ', '')
+        uses = [n for n in walk_no_nested(fn) if isinstance(n, ast.Name) and n.id == name
+                and isinstance(n.ctx, ast.Load) and not any(n is x for x in ast.walk(acc))]
+        ok = bool(uses)
+        for u in uses:
+            q = u._parent
+            if not (isinstance(q, ast.BinOp) and isinstance(q.op, ast.Div) and q.left is u
+                    and can.text(q.right).replace(' ', '') == want):
+                ok = False
+                break
+            qp = q._parent
+            st = enclosing_stmt(q)
+            in_triple = isinstance(qp, (ast.Tuple, ast.List)) and len(qp.elts) == 3 \
+                and qp.elts.index(q) == AXES.index(axis)
+            to_attr = isinstance(st, ast.Assign) and st.value is q and \
+                isinstance(st.targets[0], ast.Attribute) and st.targets[0].attr == axis
+            if not (in_triple or to_attr):
+                ok = False
+                break
+        if ok:
+            res[name] = (axis, {id(init), id(acc)})
+    return res
+
+
 def check_function_affine(ctx, mod, qual, fn):
     """R1 for one function outside vector_algebra."""
     names = {}
+    accumulators = centroid_accumulators(fn)
+    feeding = {sid: (nm, ax) for nm, (ax, ids) in accumulators.items() for sid in ids}
     # pre-pass: triples and displacement/point locals (two rounds for chains)
     for _ in range(3):
         aff = Affine(names)
@@ -170,6 +264,12 @@ def check_function_affine(ctx, mod, qual, fn):
         par = top._parent
         stmt = enclosing_stmt(top)
         ok, how = False, ''
+        if id(stmt) in feeding and {n.attr for n in ast.walk(top) if isinstance(n, ast.Attribute)
+                                    and n.attr in AXES} == {feeding[id(stmt)][1]}:
+            results.append((top, True, 'centroid: %s adds up the %s coordinate of every element and is '
+                            'used only divided by their number, as the %s coordinate'
+                            % (feeding[id(stmt)][0], feeding[id(stmt)][1], feeding[id(stmt)][1])))
+            continue
         if t[0] == 'err':
             ok, how = False, t[1]
         elif t[0] == 'scalar':
@@ -426,6 +526,10 @@ def canon(node):
             return '[' + ', '.join(triples(list(n.elts))) + ']'
         if isinstance(n, ast.UnaryOp):
             return '(%s%s)' % (type(n.op).__name__, tx(n.operand))
+        if isinstance(n, (ast.ListComp, ast.GeneratorExp, ast.SetComp)):
+            return '<%s %s>' % (tx(n.elt), ' '.join(
+                'for %s in %s%s' % (tx(g.target), tx(g.iter), ''.join(' if ' + tx(c) for c in g.ifs))
+                for g in n.generators))
         if isinstance(n, ast.Return):
             return 'return ' + (tx(n.value) if n.value is not None else '')
         if isinstance(n, ast.Assign):
